@@ -527,7 +527,7 @@ Section Color.
     end.
 
   (* ValidColor *)
-  Definition valid_color (c : str) : bool :=
+  Definition valid_color_pinned (c : str) : bool :=
     if is_gradient c then
       match parse_gradient c with
       | None => false
@@ -536,7 +536,7 @@ Section Color.
     else existsb (str_eqb (map lower_a c)) named_colors || hex_color c.
 
   (* ValidColor of the repaired code (coq/C30/fix.patch): a stop position must be a number or a percentage *)
-  Definition valid_color_fixed (c : str) : bool :=
+  Definition valid_color (c : str) : bool :=
     if is_gradient c then
       match parse_gradient c with
       | None => false
@@ -651,8 +651,8 @@ Section GradientSVG.
     else [].
 
   Definition id_esc (s : str) : str := s.
-  Definition gradient_to_svg := gradient_svg id_esc.               (* pinned code *)
-  Definition gradient_to_svg_fixed := gradient_svg escape_text.    (* repaired code *)
+  Definition gradient_to_svg_pinned := gradient_svg id_esc.               (* pinned code *)
+  Definition gradient_to_svg := gradient_svg escape_text.    (* repaired code *)
 End GradientSVG.
 
 (* every value a gradient definition writes (through esc) may stand between double quotes *)
